@@ -137,6 +137,19 @@ func runRowAPI(tr *Tracer, s *Scenario) (ok bool) {
 			}
 			tr.Emit(map[string]interface{}{"ev": "stmt", "c": "w", "step": i, "cseq": cseq, "id": st.str("id"), "kind": kind, "key": key,
 				"vals": vals, "wt": wt, "intx": 0, "outcome": outcome, "err": errStr(serr), "affected": affected, "dm": 0, "dme": 0, "dr": 0, "api": 1})
+			// the registers of the statement's key after the statement (strict conformance of Rows.tla, RowsMonitor.tla)
+			d := map[string]interface{}{}
+			e.dumpDB(vt.Tree.Root, d)
+			if d["outcome"] == "ok" {
+				reg := map[string]interface{}{"ev": "regs", "c": "w", "step": i, "key": key, "abs": true, "mod": 0, "st": 0, "live": false, "cols": []interface{}{}}
+				for _, en := range d["entries"].([]interface{}) {
+					m := en.(map[string]interface{})
+					if m["key"].(string) == key {
+						reg["abs"], reg["mod"], reg["st"], reg["live"], reg["cols"] = false, m["mod"], m["st"], m["live"], m["cols"]
+					}
+				}
+				tr.Emit(reg)
+			}
 		case "rows":
 			_, rows, verr := visible()
 			if rows == nil {
